@@ -146,6 +146,7 @@ func (l *logW) Replay() error {
 	} else {
 		base := l.inner.LastIndex() - uint64(l.inner.Size())
 		e["base"] = int(base)
+		e["lastt"] = int(l.inner.LastTerm())
 		ents := []*raft.LogEntry{}
 		for i := base + 1; i <= l.inner.LastIndex(); i++ {
 			en, gerr := l.inner.GetEntry(i)
